@@ -3,8 +3,8 @@ CONSTANTS
   BPaths <- TinyPaths
   BCells <- FourCells
   BMax = 2
-  DPaths <- SmallPaths
-  DCells <- FourCells
+  DPaths <- ConflictPaths
+  DCells <- TwoCells
   DMax = 2
   Filters <- StdFilters
 INVARIANT Lemmas
